@@ -61,6 +61,9 @@ var c07Rules = map[string]c07Rule{
 	"Nested": {"Nested", "POST", "/v1/nested/{child.name}:act", "tags", "child"},
 	"Scalar": {"Scalar", "PATCH", "/v1/scalar/{child.child.name=x/*}", "num", "tags"},
 	"Blob":   {"Blob", "POST", "/v1/blob/{name}", "body", "body"},
+	"Labels": {"Labels", "PUT", "/v1/labels/{name}", "labels", "labels"},
+	"KidMap": {"KidMap", "PUT", "/v1/kidmap/{name}", "kid_map", ""},
+	"Kids":   {"Kids", "PUT", "/v1/kids/{name}", "kids", "kids"},
 }
 
 func (r c07Rule) ref() *refbind.Rule {
@@ -330,10 +333,13 @@ func init() {
 		"Multi":  {`{"name":"a"}`, `{"name":"a:b/c$d"}`, `{"name":"a/b/c"}`, `{"name":"a%2Fb/c d","num":1}`, `{"name":"é/😀"}`},
 		"Nested": {`{"child":{"name":"cn"},"tags":["a","b"]}`, `{"child":{"name":"c:n"},"tags":["t"]}`, `{"child":{"name":"x:act"},"tags":[]}`, `{"child":{"name":"c/n","num":4},"tags":[],"name":"top"}`},
 		"Scalar": {`{"child":{"child":{"name":"x/leaf"}},"num":-12}`, `{"child":{"child":{"name":"x/a%b"}},"num":0,"name":"n"}`},
+		"Labels": {`{"name":"t1","labels":{"env":"prod","tier":"1"},"num":3}`, `{"name":"t2","labels":{}}`, `{"name":"t3","labels":{"":"", "a b":"c&d"},"child":{"name":"cn"}}`},
+		"KidMap": {`{"name":"k1","kidMap":{"a":{"name":"ka","num":1},"b":{}}}`, `{"name":"k2","tags":["t"]}`},
+		"Kids":   {`{"name":"r1","kids":[{"name":"a"},{"num":2,"labels":{"p":"q"}}],"num":5}`, `{"name":"r2","kids":[]}`},
 		"Blob":   {`{"name":"f","body":{"contentType":"image/png","data":"iVBORwD/"}}`, `{"name":"g","num":2,"body":{"contentType":"","data":""}}`},
 	}
 	var chainCases [][2]string
-	for _, m := range []string{"Unary", "Pure", "Idem", "Multi", "Nested", "Scalar", "Blob"} {
+	for _, m := range []string{"Unary", "Pure", "Idem", "Multi", "Nested", "Scalar", "Blob", "Labels", "KidMap", "Kids"} {
 		for _, js := range chainMsgs[m] {
 			chainCases = append(chainCases, [2]string{m, js})
 		}
